@@ -389,6 +389,9 @@ SECTION_PROPS["extract_engine"] = ["C01", "C02", "C03", "C04", "C05", "C06", "C0
 from extract_hashsrc import hashsrc_section  # noqa: E402  (M4 tie: HashGen.lean / Properties/HashTie.lean)
 EXTRA_SECTIONS.append(hashsrc_section)
 SECTION_PROPS["extract_hashsrc"] = ["C12"]
+from extract_exprgen import exprgen_section  # noqa: E402  (M3 tie: ExprGen.lean / Properties/ExprTie.lean)
+EXTRA_SECTIONS.append(exprgen_section)
+SECTION_PROPS["extract_exprgen"] = ["C16"]
 
 
 def main(write: bool = True) -> int:
